@@ -31,6 +31,7 @@ func main() {
 	// cold snapshot: taken before any library function has run
 	field.VerifSnapshot()
 	edwards25519.VerifSnapshot()
+	vsync.SnapshotRegistered()
 	checks.Registry["C18"] = struct {
 		Level string
 		Run   func(ctx *core.Ctx)
@@ -471,6 +472,8 @@ type seqRef struct {
 	// the interleaving.
 	initOnly []bool
 	globals  [32]byte
+	// unrestorable: a second cold run of the same calls behaved differently
+	unrestorable bool
 }
 
 // sequential reference: every thread's calls run one thread after the other
@@ -486,7 +489,11 @@ func sequentialRef(sc *scenario) *seqRef {
 	// machinery error instead of reporting a bogus violation.
 	r2 := runSchedule(sc, nil, nil, false)
 	if fmt.Sprint(r.outs, r.exec.Counts, r.exec.Choices, r.exec.Deadlock) != fmt.Sprint(r2.outs, r2.exec.Counts, r2.exec.Choices, r2.exec.Deadlock) {
-		core.InternalError("C18: the cold-state snapshot/restore is incomplete for this tree (scenario %q behaves differently on its second cold run); cannot explore schedules soundly", sc.name)
+		// This tree keeps state the snapshot cannot reach (captured by a
+		// closure, say). Exploring from a state that is not cold would make
+		// every comparison meaningless, so this scenario is not explored -
+		// said in the evidence - instead of reporting anything.
+		return &seqRef{outs: r.outs, counts: r.exec.Counts, calls: r.exec.Calls, globals: r.globals, unrestorable: true}
 	}
 	if r.exec.Deadlock || r.exec.Panicked() != nil || len(r.exec.Races) > 0 {
 		return &seqRef{outs: r.outs, counts: r.exec.Counts, calls: r.exec.Calls, globals: r.globals}
@@ -970,6 +977,11 @@ func runC18(ctx *core.Ctx) {
 		out = f[3]
 		sc := scs[si]
 		seq := sequentialRef(&sc)
+		if seq.unrestorable {
+			b, _ := json.Marshal(shardOut{Capped: true})
+			os.WriteFile(out, b, 0o644)
+			os.Exit(0)
+		}
 		x := &explorer{sc: &sc, seq: seq, bound: boundFor(ctx, &sc), byPreempt: map[int]int64{}, outcomes: map[string]int64{}, ctx: ctx, limit: int64(tierLimit(ctx)), shardW: w, shardK: k}
 		if len(f) > 4 && f[4] == "u" {
 			// every interleaving (no preemption bound), pruned on complete state keys
@@ -1044,6 +1056,9 @@ func runC18(ctx *core.Ctx) {
 	for si, sc := range scs {
 		sc := sc
 		seq := sequentialRef(&sc)
+		if seq.unrestorable {
+			ctx.NotExhaustive(fmt.Sprintf("%s: NOT explored - this tree keeps state that cannot be put back into its cold state in-process (a second cold run of the same calls behaves differently; state captured by a closure, for instance)", sc.name))
+		}
 		// the sequential reference itself must agree with the model
 		for ti, calls := range sc.threads {
 			for ci, c := range calls {
